@@ -1,6 +1,6 @@
 """C12 — malformed or inconsistent input is rejected by an exception, never by a crash."""
 from .. import facts, run
-from ..rules import asserts, guard, pure
+from ..rules import asserts, guard, pure, segments
 
 
 def construction_roots(P):
@@ -24,6 +24,7 @@ def main(tier):
     asserts.schema_keys(P, rep)
     asserts.schema_writers(P, rep)
     asserts.json_member_order(P, rep)
+    segments.line_siblings(P, rep)     # slab and fault are copies of one another: shortcuts, input checks and guards must agree
     asserts.dead_checks(P, rep)
     asserts.string_dispatch(P, rep)
     guard.input_gates(P, rep)
